@@ -1,6 +1,7 @@
 package props
 
 import (
+	"strings"
 	"go/types"
 
 	"godcheck/core"
@@ -73,5 +74,103 @@ func c11Extra(r *core.Run) {
 			}
 			o.Site(n, core.FuncName(f))
 		}
+	})
+
+	r.Check("D1/K1/body-runs-once", "the transaction body runs at most once per Transact call: in lib/store/sqlx no call that runs the body, or hands it on, sits in a loop (a retry around the whole transaction commits a second run of the body and returns nil for a failed one)", func(o *core.O) {
+		n := 0
+		for _, f := range p.PkgFuncs(sqlx) {
+			if f.Parent() != nil {
+				continue
+			}
+			for i, prm := range f.Params {
+				if !strings.HasSuffix(prm.Type().String(), "func(context.Context, "+core.Mod+"/lib/store/sqlx.Session) error") {
+					continue
+				}
+				isBody := core.ParamAt(f, i)
+				for _, c := range core.Calls(f, func(in ssa.Instruction) bool {
+					cc := core.AsCall(in)
+					if cc == nil {
+						return false
+					}
+					if isBody(cc.Common().Value) {
+						return true
+					}
+					for _, a := range cc.Common().Args {
+						if isBody(a) {
+							return true
+						}
+					}
+					return false
+				}) {
+					n++
+					r.Fn(core.FuncName(f))
+					if _, loops := core.Reach(core.Q{From: []core.At{core.After(c)}, Target: core.Is(c)}); loops {
+						o.Fail(p.InstrPos(c), "%s can run the transaction body more than once (the call sits in a loop): after a failed attempt was rolled back a second run commits and nil is returned, or a failed commit is retried instead of reported", core.FuncName(f))
+					}
+				}
+			}
+		}
+		o.Site(n, sqlx)
+	})
+
+	r.Check("D3/K3/tag-lookup-by-the-column-name-itself", "a result column is matched to a `db` tag by the column name as the driver reports it: the key looked up in the tag map is an element of the columns argument, not a transformed copy (the map's keys keep the tags' spelling)", func(o *core.O) {
+		f := p.Func(sqlx, "", "mapStructFieldsIntoSlice")
+		if !o.Need(f != nil, "sqlx.mapStructFieldsIntoSlice") {
+			return
+		}
+		r.Fn(core.FuncName(f))
+		looks := core.Instrs(f, func(in ssa.Instruction) bool {
+			l, ok := in.(*ssa.Lookup)
+			return ok && core.IsResult(l.X, 0, core.CallTo("lib/store/sqlx.getTaggedFieldValueMap"))
+		})
+		o.Site(len(looks), core.FuncName(f))
+		for _, in := range looks {
+			idx := core.Strip(core.Forward(in.(*ssa.Lookup).Index))
+			if c, _ := core.ResultOf(idx); c != nil {
+				o.Fail(p.InstrPos(in), "the tag map is looked up with %s, a transformed column name: a tag spelled differently from the transformation (mixed case) never matches its own column and the field stays zero without an error", core.Describe(idx))
+				continue
+			}
+			if !core.DependsOn(idx, core.ParamAt(f, 1)) {
+				o.Fail(p.InstrPos(in), "the tag map is looked up with %s, which is not a column name of the result", core.Describe(idx))
+			}
+		}
+	})
+
+	r.Check("D3/K5/no-type-name-keyed-cache", "lib/store/sqlx keeps no process-wide table keyed by a type's printed name (reflect.Type.String/Name): two destination types with the same name in different packages or scopes would share an entry, and the second would be mapped with the first one's tags", func(o *core.O) {
+		o.ZeroOK()
+		n := 0
+		isTypeName := func(v ssa.Value) bool {
+			c, _ := core.ResultOf(core.Strip(core.Forward(v)))
+			if c == nil {
+				return false
+			}
+			nm := core.CalleeName(c)
+			return nm == "(reflect.Type).String" || nm == "(reflect.Type).Name"
+		}
+		for _, f := range p.PkgFuncs(sqlx) {
+			for _, c := range core.Calls(f, core.Or(core.CallMethod("sync.Map", "Store"), core.CallMethod("sync.Map", "LoadOrStore"), core.CallMethod("sync.Map", "Load"))) {
+				if a := core.Args(c); len(a) >= 2 && core.DependsOn(a[1], isTypeName) {
+					n++
+					o.Fail(p.InstrPos(c), "%s keys a process-wide cache by the printed name of a type", core.FuncName(f))
+				}
+			}
+			for _, in := range core.Instrs(f, func(in ssa.Instruction) bool {
+				switch x := in.(type) {
+				case *ssa.MapUpdate:
+					_, isG := core.Strip(core.Forward(x.Map)).(*ssa.UnOp)
+					return isG && core.DependsOn(x.Key, isTypeName)
+				}
+				return false
+			}) {
+				mu := in.(*ssa.MapUpdate)
+				if u, ok := core.Strip(core.Forward(mu.Map)).(*ssa.UnOp); ok {
+					if _, isGlobal := u.X.(*ssa.Global); isGlobal {
+						n++
+						o.Fail(p.InstrPos(in), "%s keys a package-level map by the printed name of a type", core.FuncName(f))
+					}
+				}
+			}
+		}
+		o.Site(n, sqlx)
 	})
 }
